@@ -13,15 +13,23 @@ import (
 // Inlining of extracted helpers. "Move a block into a new helper" is the most common behaviour-
 // preserving edit, and a rule that looks for a pattern inside one function loses it when the block
 // moves. Renames are undone by canon.go; this pass undoes extractions: a function or method that
-// is NEW with respect to the inventory of the reference tree (anchors.json), is unexported, has no
-// results and a body without return / defer / go / goto / labels / recover, is substituted for its
-// calls in statement position, in memory:
+// is NEW with respect to the inventory of the reference tree (anchors.json), is unexported and has
+// a body without defer / goto / labels / recover, is substituted for its calls, in memory, in the
+// form that is the closest inverse of the extraction:
 //
-//	c.deliver(data{Index: index})   ==>   { var c *conn = c; var result data = data{Index: index}; <body of deliver> }
+//	flat          a helper whose only return is its last statement: bindings and body stand in the
+//	              caller's statement list, the returned expressions take the place of the call
+//	direct block  several returns: inlNL: switch { default: <body> }, every `return x, y` becomes
+//	              `a, b = x, y; break inlNL` with a, b the variables the statement assigns (named
+//	              results, same-named top-level locals and same-named parameters of the helper ARE
+//	              those variables); also for `return helper(..)` in a function with named results
+//	              and for `if a, b = helper(..); cond {`
+//	temporaries   only where the value goes straight into an argument of another call
 //
-// The block binds receiver and parameters exactly once, in order, so the substitution has the
-// meaning of the call. The helper itself stays in the tree. If the result does not type-check
-// (an import missing in the caller's file, a name clash) the tree is analysed as it is.
+// The flat form is tried first; callers in which it does not type-check are re-done in block form
+// (Load, errorDecls); if nothing type-checks the tree is analysed as it is. A tree with
+// substitutions is kept in both forms (Prog.PreInline): a rule that is not satisfied with the
+// substituted tree decides on the tree as written (runRules).
 
 // declKey names a function declaration independently of the type checker (file|Recv.Name), so that a caller in which the
 // flat substitution did not type-check can be found again in the next attempt.
